@@ -211,6 +211,9 @@ gen(const char *script, const char *out)
     int   last_mtag = 0; /* tag under which the last SDS / image is a vgroup member (0: not a member) */
     int32 last_id  = FAIL; /* sds id / ri id / vdata id / vgroup id */
     int32 last_vs  = FAIL;
+    char   old_op[32][8];
+    int    old_arg[32][4];
+    int    nold = 0;
     uint32 lonepals[16];
     int    nlonepals = 0;
     int    i;
@@ -575,6 +578,19 @@ gen(const char *script, const char *out)
             if (nlonepals < 16)
                 lonepals[nlonepals++] = (uint32)atoi(tok[1]);
         }
+        else if (strcmp(tok[0], "r8pal") == 0 || strcmp(tok[0], "r8") == 0 || strcmp(tok[0], "r24") == 0) {
+            /* old-style raster images, written through DFR8 / DF24 after the file is closed, in script order:
+               r8pal <seed>            palette for the following 8-bit images (they all share this one palette object)
+               r8 <w> <h> <seed> <rle> 8-bit image (DFR8addimage), optionally run-length compressed
+               r24 <w> <h> <seed> <il> 24-bit image (DF24addimage) in interlace il */
+            if (nold < 32) {
+                int k;
+                strncpy(old_op[nold], tok[0], 7);
+                for (k = 0; k < 4; k++)
+                    old_arg[nold][k] = k + 1 < nt ? atoi(tok[k + 1]) : 0;
+                nold++;
+            }
+        }
         else
             DIE("unknown script op %s", tok[0]);
     }
@@ -601,6 +617,33 @@ gen(const char *script, const char *out)
         fillpat(pal, 768, 1, lonepals[i], 0);
         if (DFPaddpal(out, pal) == FAIL)
             DIE("DFPaddpal");
+    }
+    if (nold > 0) {
+        DFR8restart();
+        DF24restart();
+    }
+    for (i = 0; i < nold; i++) {
+        if (strcmp(old_op[i], "r8pal") == 0) {
+            static uint8 pal[768];
+            fillpat(pal, 768, 1, (uint32)old_arg[i][0], 0);
+            if (DFR8setpalette(pal) == FAIL)
+                DIE("DFR8setpalette");
+        }
+        else {
+            int    w = old_arg[i][0], h = old_arg[i][1], is8 = strcmp(old_op[i], "r8") == 0;
+            size_t n = (size_t)w * (size_t)h * (is8 ? 1 : 3);
+            uint8 *img = malloc(n + 8);
+            fillpat(img, n, 1, (uint32)old_arg[i][2], 1);
+            if (is8) {
+                if (DFR8addimage(out, img, w, h, old_arg[i][3] ? COMP_RLE : 0) == FAIL)
+                    DIE("DFR8addimage");
+            }
+            else {
+                if (DF24setil(old_arg[i][3]) == FAIL || DF24addimage(out, img, w, h) == FAIL)
+                    DIE("DF24addimage");
+            }
+            free(img);
+        }
     }
     printf("ok\n");
     return 0;
@@ -835,7 +878,10 @@ dump_gr(int32 index, int depth)
     printf("N %d gr ", depth);
     putname(name);
     printf("\n");
-    printf("C type %d ncomp %d il %d dims %d %d\n", (int)nt, (int)ncomp, (int)il, (int)dims[0], (int)dims[1]);
+    /* the interlace of an image is storage layout: the GR interface stores every image it creates pixel-interlaced
+       whatever GRcreate is told, so a copy of a line- or component-interlaced (DF24) image cannot keep it; the pixels
+       are compared in pixel interlace */
+    printf("C type %d ncomp %d dims %d %d\n", (int)nt, (int)ncomp, (int)dims[0], (int)dims[1]);
     dump_gr_attrs(id, nattrs);
     pid = GRgetlutid(id, 0);
     if (pid != FAIL && GRgetlutinfo(pid, &pnc, &pnt, &pil, &pne) != FAIL && pnc > 0 && pne > 0) {
@@ -849,7 +895,7 @@ dump_gr(int32 index, int depth)
     }
     nb = (size_t)dims[0] * (size_t)dims[1] * (size_t)ncomp * (size_t)ntsize(nt);
     b  = calloc(nb + 8, 1);
-    if (GRreqimageil(id, il) == FAIL || GRreadimage(id, start, NULL, dims, b) == FAIL)
+    if (GRreqimageil(id, MFGR_INTERLACE_PIXEL) == FAIL || GRreadimage(id, start, NULL, dims, b) == FAIL)
         DIE("GRreadimage %s", name);
     printf("C data ");
     putdata(b, nb);
@@ -867,7 +913,7 @@ dump_gr(int32 index, int depth)
         printf(" %d %d", (int)cd.chunk_lengths[0], (int)cd.chunk_lengths[1]);
     else
         printf(" -");
-    printf(" flags %d isrec 0\n", (int)cflags);
+    printf(" flags %d isrec 0 il %d\n", (int)cflags, (int)il);
     GRendaccess(id);
 }
 
